@@ -15,6 +15,10 @@ from vlib import impl
 from vlib.acc import Acc
 
 ID = "C05"
+ENGINE = 'E1 word enumerator'
+TECHNIQUE = 'bounded-exhaustive differential enumeration: compiled vs pure-Python quoter/unquoter on every token word and every 8 KiB boundary offset'
+LEVEL_TEXT = 'All token words up to length 3-5 (alphabet: all ASCII, UTF-8 length classes, surrogates, every escape shape) for each of the 9 quoter and 4 unquoter configurations discovered in the working tree, plus padded words walking the output position across every offset around 8192*m, are executed on both implementations and must agree exactly.'
+LEVEL_NOTE = 'Word length bound; compositional expectation for padded words in the quick tier (the thorough tier runs the Python quoter on the long strings too).'
 BACKENDS = ("c",)  # both quoting modules are imported side by side in one process
 RULE = ("cases = (configuration, token word); every word of length<=k over the stated token alphabets is enumerated once per "
         "configuration (duplicates as strings arising from different tokenisations are skipped within a shard); plus boundary "
